@@ -200,6 +200,13 @@ def false_selfadjoint_behind_wrapper(A, inside=False):
     return any(false_selfadjoint_behind_wrapper(k, inside or wrapper) for k in kids if isinstance(k, ops.LinearOperator))
 
 
+def false_selfadjoint_under_wrap(t):
+    """recipe level: a Transpose / Adjoint (constructor or .T / .H, which may short-cut on the annotation) over something falsely annotated"""
+    if t["k"] == "Wrap" and false_selfadjoint_behind_wrapper(C.build(t["a"]), inside=True):
+        return True
+    return any(false_selfadjoint_under_wrap(x) for x in C.subs(t))
+
+
 def tol_of(recipe, logabs, case=None):
     f32 = any(d in ("float32", "complex64") for d in C.rdts(recipe))
     base = 2e-4 if f32 else 1e-9
@@ -307,7 +314,7 @@ def run(ctx):
             c["condD"] = float("inf")
         if not (c.get("wide") or c["condD"] <= (1e13 if kry == "graded" else 1e5)) or not abs(np.linalg.slogdet(D)[1]) < 2e4:
             continue
-        if "scalar_keeps_annotations" in present and false_selfadjoint_behind_wrapper(C.build(c["recipe"])):
+        if "scalar_keeps_annotations" in present and false_selfadjoint_under_wrap(c["recipe"]):
             stats["skipped_false_selfadjoint_behind_wrapper"] += 1   # region spoiled by a recorded flag
             continue
         o = run_impl(c)
